@@ -1473,9 +1473,6 @@ impl<'a> Evaluator<'a> {
                     // on whether one element has to satisfy all members
                     return self.njr("quantified key list on array field");
                 }
-                if k3_shape(ms, &e.modifier) {
-                    return self.njr("K3 shape");
-                }
                 let ops: Vec<RSet> =
                     ms.iter().map(|m| self.eval_member(&KeyMod::None, m, v, true)).collect();
                 set_quant(&e.modifier, &ops)
